@@ -63,4 +63,262 @@ pub(crate) mod kani_verif {
     lifetime_harness!(c13_lifetime_l5, 5);
     // @h name=c13_lifetime_l8 props=C13,C05 tier=thorough kind=proved cfg=w8 funcs=HssPrivateKey::get_lifetime contract="same, length 8"
     lifetime_harness!(c13_lifetime_l8, 8);
+
+    // ================================================================== HssPrivateKey::from: wiring of the levels (C03 e/f, C07, C01)
+    use crate::constants::{ILEN, MAX_HASH_SIZE};
+    use crate::hasher::sha256::Sha256_128;
+    use crate::hss::parameter::HssParameter;
+    use crate::hss::reference_impl_private_key::{CompressedParameterSet, CompressedUsedLeafsIndexes, Seed, SeedAndLmsTreeIdentifier};
+    use crate::lms::LmsKeyPair;
+    use core::sync::atomic::{AtomicU8, AtomicUsize, Ordering};
+
+    type HF = Sha256_128;
+    const NF: usize = 16;
+    const MAXL: usize = 8;
+
+    // ---- contract stubs: each logs its arguments per call and returns fresh unconstrained material
+    static ROOT_OUT: [AtomicU8; 32] = [const { AtomicU8::new(0) }; 32];
+    pub fn stub_root_seed<H: HashChain>(_this: &ReferenceImplPrivateKey<H>) -> SeedAndLmsTreeIdentifier<H> {
+        let mut r = SeedAndLmsTreeIdentifier::<H>::default();
+        let s: [u8; 16] = kani::any();
+        let id: [u8; 16] = kani::any();
+        r.seed.as_mut_slice()[..16].copy_from_slice(&s);
+        r.lms_tree_identifier = id;
+        let mut i = 0;
+        while i < 16 {
+            ROOT_OUT[i].store(s[i], Ordering::Relaxed);
+            ROOT_OUT[16 + i].store(id[i], Ordering::Relaxed);
+            i += 1;
+        }
+        r
+    }
+    static CHILD_CALLS: AtomicUsize = AtomicUsize::new(0);
+    static CHILD_LOG: [AtomicU8; MAXL * 72] = [const { AtomicU8::new(0) }; MAXL * 72]; // parent seed16, parent I16, q4 | out seed16, out I16, pad
+    pub fn stub_child_seed<H: HashChain>(parent_seed: &SeedAndLmsTreeIdentifier<H>, parent_lms_leaf_identifier: &u32) -> SeedAndLmsTreeIdentifier<H> {
+        let k = CHILD_CALLS.fetch_add(1, Ordering::Relaxed);
+        assert!(k < MAXL, "harness sizing");
+        let s: [u8; 16] = kani::any();
+        let id: [u8; 16] = kani::any();
+        let q = parent_lms_leaf_identifier.to_be_bytes();
+        let mut i = 0;
+        while i < 16 {
+            CHILD_LOG[k * 72 + i].store(parent_seed.seed.as_slice()[i], Ordering::Relaxed);
+            CHILD_LOG[k * 72 + 16 + i].store(parent_seed.lms_tree_identifier[i], Ordering::Relaxed);
+            CHILD_LOG[k * 72 + 36 + i].store(s[i], Ordering::Relaxed);
+            CHILD_LOG[k * 72 + 52 + i].store(id[i], Ordering::Relaxed);
+            i += 1;
+        }
+        i = 0;
+        while i < 4 {
+            CHILD_LOG[k * 72 + 32 + i].store(q[i], Ordering::Relaxed);
+            i += 1;
+        }
+        let mut r = SeedAndLmsTreeIdentifier::<H>::default();
+        r.seed.as_mut_slice()[..16].copy_from_slice(&s);
+        r.lms_tree_identifier = id;
+        r
+    }
+    static RND_CALLS: AtomicUsize = AtomicUsize::new(0);
+    static RND_LOG: [AtomicU8; MAXL * 52] = [const { AtomicU8::new(0) }; MAXL * 52]; // seed16, I16, q4, out16
+    pub fn stub_rnd<H: HashChain>(child_seed: &SeedAndLmsTreeIdentifier<H>, parent_lms_leaf_identifier: &u32) -> ArrayVec<[u8; MAX_HASH_SIZE]> {
+        let k = RND_CALLS.fetch_add(1, Ordering::Relaxed);
+        assert!(k < MAXL, "harness sizing");
+        let c: [u8; 32] = kani::any();
+        let q = parent_lms_leaf_identifier.to_be_bytes();
+        let mut i = 0;
+        while i < 16 {
+            RND_LOG[k * 52 + i].store(child_seed.seed.as_slice()[i], Ordering::Relaxed);
+            RND_LOG[k * 52 + 16 + i].store(child_seed.lms_tree_identifier[i], Ordering::Relaxed);
+            RND_LOG[k * 52 + 36 + i].store(c[i], Ordering::Relaxed);
+            i += 1;
+        }
+        i = 0;
+        while i < 4 {
+            RND_LOG[k * 52 + 32 + i].store(q[i], Ordering::Relaxed);
+            i += 1;
+        }
+        ArrayVec::from_array_len(c, H::OUTPUT_SIZE as usize)
+    }
+    static KP_CALLS: AtomicUsize = AtomicUsize::new(0);
+    static KP_LOG: [AtomicU8; MAXL * 56] = [const { AtomicU8::new(0) }; MAXL * 56]; // seed16, I16, used4, lmstype1, otstype1, pad2, pubkey16
+    pub fn stub_key_pair<H: HashChain>(
+        seed: &SeedAndLmsTreeIdentifier<H>,
+        parameter: &HssParameter<H>,
+        used_leafs_index: &u32,
+        aux_data: &mut Option<MutableExpandedAuxData>,
+    ) -> LmsKeyPair<H> {
+        let k = KP_CALLS.fetch_add(1, Ordering::Relaxed);
+        assert!(k < MAXL, "harness sizing");
+        assert!(aux_data.is_none(), "child trees are generated without aux data");
+        let pk: [u8; 32] = kani::any();
+        let u = used_leafs_index.to_be_bytes();
+        let mut i = 0;
+        while i < 16 {
+            KP_LOG[k * 56 + i].store(seed.seed.as_slice()[i], Ordering::Relaxed);
+            KP_LOG[k * 56 + 16 + i].store(seed.lms_tree_identifier[i], Ordering::Relaxed);
+            KP_LOG[k * 56 + 40 + i].store(pk[i], Ordering::Relaxed);
+            i += 1;
+        }
+        i = 0;
+        while i < 4 {
+            KP_LOG[k * 56 + 32 + i].store(u[i], Ordering::Relaxed);
+            i += 1;
+        }
+        KP_LOG[k * 56 + 36].store(parameter.get_lms_parameter().get_type_id() as u8, Ordering::Relaxed);
+        KP_LOG[k * 56 + 37].store(parameter.get_lmots_parameter().get_type_id() as u8, Ordering::Relaxed);
+        let private_key = LmsPrivateKey::new(seed.seed.clone(), seed.lms_tree_identifier, *used_leafs_index,
+            *parameter.get_lmots_parameter(), *parameter.get_lms_parameter());
+        let mut public_key = LmsPublicKey::<H>::default();
+        public_key.key = ArrayVec::from_array_len(pk, H::OUTPUT_SIZE as usize);
+        public_key.lms_tree_identifier = seed.lms_tree_identifier;
+        public_key.lmots_parameter = *parameter.get_lmots_parameter();
+        public_key.lms_parameter = *parameter.get_lms_parameter();
+        LmsKeyPair { private_key, public_key }
+    }
+    static SG_CALLS: AtomicUsize = AtomicUsize::new(0);
+    static SG_LOG: [AtomicU8; MAXL * 96] = [const { AtomicU8::new(0) }; MAXL * 96]; // I16, used4, rnd16, msglen1, pad3, msg56
+    pub fn stub_sign<H: HashChain>(
+        lms_private_key: &mut LmsPrivateKey<H>,
+        message: &[u8],
+        signature_randomizer: &ArrayVec<[u8; MAX_HASH_SIZE]>,
+        _aux_data: &mut Option<MutableExpandedAuxData>,
+    ) -> Result<LmsSignature<H>, ()> {
+        let k = SG_CALLS.fetch_add(1, Ordering::Relaxed);
+        assert!(k < MAXL, "harness sizing");
+        assert!(message.len() <= 56, "harness sizing");
+        let u = lms_private_key.used_leafs_index.to_be_bytes();
+        let mut i = 0;
+        while i < 16 {
+            SG_LOG[k * 96 + i].store(lms_private_key.lms_tree_identifier[i], Ordering::Relaxed);
+            SG_LOG[k * 96 + 20 + i].store(signature_randomizer[i], Ordering::Relaxed);
+            i += 1;
+        }
+        i = 0;
+        while i < 4 {
+            SG_LOG[k * 96 + 16 + i].store(u[i], Ordering::Relaxed);
+            i += 1;
+        }
+        SG_LOG[k * 96 + 36].store(message.len() as u8, Ordering::Relaxed);
+        i = 0;
+        while i < message.len() {
+            SG_LOG[k * 96 + 40 + i].store(message[i], Ordering::Relaxed);
+            i += 1;
+        }
+        if lms_private_key.used_leafs_index as usize >= lms_private_key.lms_parameter.number_of_lm_ots_keys() {
+            return Err(());
+        }
+        let mut s = LmsSignature::<H>::default();
+        s.lms_leaf_identifier = u;
+        s.lms_parameter = lms_private_key.lms_parameter;
+        s.lmots_signature.signature_randomizer = *signature_randomizer;
+        lms_private_key.used_leafs_index += 1;
+        Ok(s)
+    }
+    fn lg(a: &[AtomicU8], off: usize, n: usize) -> [u8; 56] {
+        let mut b = [0u8; 56];
+        let mut i = 0;
+        while i < n {
+            b[i] = a[off + i].load(Ordering::Relaxed);
+            i += 1;
+        }
+        b
+    }
+
+    fn check_from<const L: usize>() {
+        CHILD_CALLS.store(0, Ordering::Relaxed);
+        RND_CALLS.store(0, Ordering::Relaxed);
+        KP_CALLS.store(0, Ordering::Relaxed);
+        SG_CALLS.store(0, Ordering::Relaxed);
+        let mut codes = [0u8; L];
+        let mut hs = [0u32; L];
+        let mut pb = [0xffu8; MAX_ALLOWED_HSS_LEVELS];
+        let mut i = 0;
+        while i < L {
+            codes[i] = any_lms_code(true);
+            hs[i] = spec_height_of_lms_code(codes[i]).unwrap();
+            pb[i] = (codes[i] << 4) | 4;
+            i += 1;
+        }
+        let c: u64 = kani::any();
+        kani::assume(spec_total_height(&hs) > 63 || (c as u128) < spec_total_leaves(&hs));
+        let mut rk = ReferenceImplPrivateKey::<HF>::default();
+        rk.compressed_used_leafs_indexes = CompressedUsedLeafsIndexes::new(c);
+        rk.compressed_parameter = CompressedParameterSet::from_slice(&pb).unwrap();
+        let r = HssPrivateKey::<HF>::from(&rk, &mut None);
+        assert!(r.is_ok(), "a key inside its lifetime always expands");
+        let k = r.unwrap();
+        assert!(k.private_key.len() == L && k.public_key.len() == L - 1 && k.signatures.len() == L - 1, "L trees, L-1 signed child keys");
+        assert!(CHILD_CALLS.load(Ordering::Relaxed) == L - 1 && RND_CALLS.load(Ordering::Relaxed) == L - 1
+            && KP_CALLS.load(Ordering::Relaxed) == L - 1 && SG_CALLS.load(Ordering::Relaxed) == L - 1, "one derivation, key generation and signature per child level");
+        // level 0: the root tree
+        let root = lg(&ROOT_OUT, 0, 32);
+        assert!(k.private_key[0].seed.as_slice() == &root[..16] && k.private_key[0].lms_tree_identifier[..] == root[16..32], "level 0 is the root (seed, I)");
+        let mut cur_seed = [0u8; 16];
+        let mut cur_id = [0u8; 16];
+        cur_seed.copy_from_slice(&root[..16]);
+        cur_id.copy_from_slice(&root[16..32]);
+        i = 1;
+        while i < L {
+            let d_parent = spec_digit(c, &hs, i - 1);
+            let ch = lg(&CHILD_LOG, (i - 1) * 72, 72 - 16);
+            let ch_out = lg(&CHILD_LOG, (i - 1) * 72 + 36, 32);
+            assert!(ch[..16] == cur_seed && ch[16..32] == cur_id, "child i derived from the (seed, I) of level i-1");
+            assert!(ch[32..36] == d_parent.to_be_bytes(), "and from the parent's current leaf = digit i-1 of the counter");
+            cur_seed.copy_from_slice(&ch_out[..16]);
+            cur_id.copy_from_slice(&ch_out[16..32]);
+            let kp = lg(&KP_LOG, (i - 1) * 56, 56);
+            assert!(kp[..16] == cur_seed && kp[16..32] == cur_id, "tree i generated from the derived (seed, I)");
+            assert!(kp[32..36] == spec_digit(c, &hs, i).to_be_bytes(), "with current leaf = digit i of the counter");
+            assert!(kp[36] == codes[i] && kp[37] == 4, "and the parameters of level i");
+            let rn = lg(&RND_LOG, (i - 1) * 52, 52);
+            assert!(rn[32..36] == d_parent.to_be_bytes(), "randomizer of the signature over child i derived for the parent's leaf");
+            assert!(rn[..16] == cur_seed && rn[16..32] == cur_id, "from the derived (seed, I) of level i (what the library does; deterministic)");
+            let sg = lg(&SG_LOG, (i - 1) * 96, 40);
+            assert!(sg[16..20] == d_parent.to_be_bytes(), "child public key signed with the parent's leaf digit i-1");
+            assert!(sg[20..36] == rn[36..52], "using that randomizer");
+            assert!(k.private_key[i - 1].lms_tree_identifier[..] == sg[..16], "by the tree of level i-1");
+            // signed content = serialised public key of level i
+            let pkb = k.public_key[i - 1].to_binary_representation();
+            assert!(sg[36] as usize == pkb.len(), "signed content is the whole serialised child public key");
+            let m = lg(&SG_LOG, (i - 1) * 96 + 40, 40);
+            assert!(m[..pkb.len()] == *pkb.as_slice(), "signed content == u32(lms type)||u32(lmots type)||I||T[1] of level i");
+            assert!(k.public_key[i - 1].key.as_slice() == &kp[40..56] && k.public_key[i - 1].lms_tree_identifier == cur_id, "stored child public key is the generated one");
+            assert!(k.signatures[i - 1].lms_leaf_identifier == d_parent.to_be_bytes(), "stored signature is the one just made");
+            assert!(k.private_key[i].seed.as_slice() == &cur_seed[..] && k.private_key[i].lms_tree_identifier == cur_id, "level i private key is the generated one");
+            i += 1;
+        }
+        // used-leaf vector left behind: digit + 1 on the levels that signed a child, digit on the bottom level
+        i = 0;
+        while i < L {
+            let want = spec_digit(c, &hs, i) + if i + 1 < L { 1 } else { 0 };
+            assert!(k.private_key[i].used_leafs_index == want, "used leaves: digit (+1 above the bottom)");
+            i += 1;
+        }
+        kani::cover!(c > 1000, "non-trivial counter reachable");
+    }
+
+    macro_rules! from_harness {
+        ($name:ident, $l:expr) => {
+            #[kani::proof]
+            #[kani::stub(zeroize::optimization_barrier, no_barrier)]
+            #[kani::stub(<[u8; 32] as tinyvec::Array>::default, fast_default)]
+            #[kani::stub(crate::hss::reference_impl_private_key::ReferenceImplPrivateKey::generate_root_seed_and_lms_tree_identifier, stub_root_seed)]
+            #[kani::stub(crate::hss::reference_impl_private_key::generate_child_seed_and_lms_tree_identifier, stub_child_seed)]
+            #[kani::stub(crate::hss::reference_impl_private_key::generate_signature_randomizer, stub_rnd)]
+            #[kani::stub(crate::lms::generate_key_pair, stub_key_pair)]
+            #[kani::stub(crate::lms::signing::LmsSignature::sign, stub_sign)]
+            #[kani::unwind(60)]
+            fn $name() {
+                check_from::<$l>();
+            }
+        };
+    }
+    // @h name=c03_from_l1 props=C03,C07,C01,C05,C13 tier=quick kind=proved cfg=w8 timeout=2400 funcs=HssPrivateKey::from contract="expanded key of counter c: level i tree = derive(level i-1 (seed,I), digit i-1), current leaf = digit i; child public key i signed by level i-1 leaf digit i-1 over its serialisation; used-leaf vector = digits (+1 above bottom); every counter, all heights; callees by contract; L=1"
+    from_harness!(c03_from_l1, 1);
+    // @h name=c03_from_l2 props=C03,C07,C01,C05,C13 tier=quick kind=proved cfg=w8 timeout=2400 funcs=HssPrivateKey::from contract="same, L=2"
+    from_harness!(c03_from_l2, 2);
+    // @h name=c03_from_l3 props=C03,C07,C01,C05,C13 tier=thorough kind=proved cfg=w8 timeout=3600 funcs=HssPrivateKey::from contract="same, L=3"
+    from_harness!(c03_from_l3, 3);
+    // @h name=c03_from_l8 props=C03,C07,C01,C05,C13 tier=thorough kind=proved cfg=w8 timeout=7200 funcs=HssPrivateKey::from contract="same, L=8"
+    from_harness!(c03_from_l8, 8);
 }
